@@ -30,6 +30,7 @@ P = {
     "C08.a": "(shared with C08) list references are stored positionally, not in resolution order",
     "C08.b": "(shared with C08) the position table is per list, persistent and updated in parallel with the list",
     "C08.c": "(shared with C08) every queued list reference carries the position of its own element",
+    "C08.d": "the resolver as a state machine, by evaluation (ReferenceResolver instantiated by interpreting __init__, resolve_one_step interpreted round after round with a provider stand-in that follows a postponement schedule): three references of one list postponed for 0-2 rounds each (27 schedules, a second list of the same object and the same attribute of a second object alongside) always end in textual order, each once",
   },
   declined="'list exactly when more than one value can be collected' for every grammar (which alternatives co-occur) and absence of Multiple-assignment errors for accepted input",
   technique="def-use dataflow on the accumulator + decision-table extraction over process_node"),
@@ -89,6 +90,7 @@ P = {
 "C07": dict(
   decided={
     "C07.d": "the tool-support bookkeeping (reads _tx_position/_tx_filename of the target) is not reachable, within one iteration, from the statement that binds a builtin",
+    "C07.e": "by evaluation of a resolver round: an unresolved reference takes the builtins entry of its name only if the type conforms; otherwise the round fails with a TextXSemanticError of type 'Unknown object' located by the model's own parser and file",
     "C07.a": "by evaluation of PlainName.__call__ over sample models (stand-ins for get_children/get_model/textx_isinstance): 0 conforming objects of the name -> None, 1 -> that object, >= 2 -> TextXSemanticError; same-named objects of unrelated classes do not count; only the model containing the referencing object is searched",
     "C07.b": "resolve_one_step: builtins consulted only after the provider returned None, accepted only under textx_isinstance; still None -> UNKNOWN_OBJ_ERROR; Postponed never stored",
     "C03.c": "(shared with C03) the type-conformance test recurses over inheritors with a cycle guard",
@@ -115,6 +117,7 @@ P = {
     "C09.b": "driver loop: condition conjoins 'unresolved > 0' and 'resolved this round > 0'; counters reset each iteration and fed only by resolve_one_step",
     "C09.c": "the unresolved error is raised iff the counter is positive after the loop; by evaluation of that branch: references left over end in a TextXSemanticError",
     "C09.d": "by evaluation of the failure branch over three sample models (two with unresolved references of their own, one without): each unresolved reference of each model is named once, with the line/column its own model's parser gives",
+    "C09.e": "by evaluation over the same schedules: in every round each reference taken from the work list is either re-queued and reported as delayed (exactly the postponed ones) or counted and stored; references of other models stay queued untouched; a Postponed answer is never stored",
     "C07.b": "(shared with C07) a Postponed result is never replaced by a builtin nor stored",
   },
   declined="'succeeds exactly when some order resolves everything' and order independence (depend on provider semantics)",
@@ -126,6 +129,7 @@ P = {
     "C10.c": "list-valued and scalar-valued descent branches agree (both test the name and return the match)",
     "C10.e": "the FQN search helpers never raise for a failed candidate; the candidate filter excludes by name only dunder and _tx_ names",
     "C10.g": "FQNImportURI installs the redirection through the models loaded by an import statement only under importAs",
+    "C10.h": "by evaluation of FQN.__call__ on a sample package tree (references written inside a.b, inside a and at the root; 22 names): the dotted name is followed part by part through contained children only (lists, tuples, single values; never parent, references, dunder or _tx_ attributes), at the referencing object first and then at each ancestor; the first scope where the whole name ends in an object of the target type wins; redirected scopes are searched and a Postponed redirection is handed on",
     "C10.f": "the containment table consulted for the attributes of an object is the table of that object's own class",
     "C10.d": "objects found by the FQN search are recognised by None-test, not by truth value",
   },
@@ -419,6 +423,7 @@ P = {
     "C34.e": "field roles of RefRulePosition",
     "C34.g": "position lists are sorted after the resolution loop for every model of the load",
     "C34.f": "every created object is entered into the span map (None-test, not truth value)",
+    "C34.h": "by evaluation of a resolver round with tool support on and off: every resolved model reference is recorded once with the reference's own start/end offsets and the target's file and span; builtin targets (plain objects) are not recorded and do not break the load; nothing is recorded with tool support off",
   },
   declined="exactness of offsets",
   technique="origin dataflow + sort-key sign analysis + fill-order rule"),
